@@ -284,7 +284,7 @@ def replay_request(chk, rng, R, what, strain=None):
     for k in R:
         with numpy.errstate(all="ignore"):
             iso1, adi1, _ = PL.real_pipeline(d, strain, [k])
-        sc = numpy.abs(iso1[k]).max() + 1e-300
+        sc = max(numpy.abs(iso1[k]).max(), 1e-6 * max(numpy.abs(v).max() for v in iso.values())) + 1e-300
         dev = max(numpy.abs(iso[k][1:] - iso1[k][1:]).max(), numpy.abs(adi[k][1:] - adi1[k][1:]).max()) / sc
         if dev > 1e-9:
             chk.violation("request:dependence", "value of %s under request %s differs from its value requested alone by %.3g relative"
